@@ -192,6 +192,25 @@ def check_network(ctx, A, w, directed, plist):
         for p in plist:
             idx = np.array(p)
             pattrs = {"lw": W[np.ix_(idx, idx)]} if has_links else None
+            # permuted_copy itself: adjacency and node weights renumbered
+            try:
+                pc = net.permuted_copy(list(p))
+                Apc = np.asarray(pc.adjacency).astype(int)
+                ok = np.array_equal(Apc, (A[np.ix_(idx, idx)] != 0).astype(
+                    int)) and np.allclose(np.asarray(pc.node_weights, float),
+                                          np.asarray(w, float)[idx]) \
+                    and bool(pc.directed) == bool(directed)
+                if not ok:
+                    ctx.violation("Network.permuted_copy",
+                                  "adjacency / node weights are not those of "
+                                  "the renumbered network",
+                                  dict(key, perm=p, got=Apc.tolist()),
+                                  {"directed": directed})
+            except Exception as e:
+                ctx.violation("Network.permuted_copy", "raises",
+                              dict(key, perm=p,
+                                   err=f"{type(e).__name__}: {e}"),
+                              {"kind": "exception"})
             pnet = nsi.build_net(A[np.ix_(idx, idx)],
                                  np.asarray(w)[idx], directed, pattrs)
             for name, (call, v, k) in base.items():
